@@ -45,9 +45,25 @@ def is_module_abort(msg):
     return 'expression simplifies to' in msg or 'failed to simplify' in msg
 
 
-def build(extra_mods=(), force_assumed=(), drop_ghost=()):
+def build(extra_mods=(), force_assumed=(), drop_ghost=(), drop_contract=()):
     """Returns dict with text, registry (clauses), logs, assumed, fn line ranges."""
     by_mod, allc = load_contracts()
+    # functions without a contract (new in this tree) that the verifier cannot take as they are: left unverified
+    have_ = {c.name for c in allc}
+    for name_ in force_assumed:
+        if name_ not in have_ and '::' in name_:
+            from splice import FnContract
+            c_ = FnContract(name_)
+            c_.tags = []
+            allc.append(c_)
+            by_mod.setdefault(name_.split('::', 1)[0], []).append(c_)
+    for c in allc:
+        if c.name in drop_contract:
+            # the signature of the function changed so much that its contract no longer type-checks: the function is
+            # left unverified WITHOUT a contract (callers learn nothing from it)
+            c.requires, c.ensures, c.decreases, c.ret, c.closures = [], [], None, None, []
+            c.consts = {}
+            c.contract_dropped = True
     for c in allc:
         if c.name in force_assumed and not c.assumed:
             c.assumed = 'forced after a module-aborting failure in this function (contract assumed to examine the rest of its module)'
